@@ -9,7 +9,8 @@ import os
 import sys
 
 V = os.path.dirname(os.path.dirname(os.path.abspath(__file__)))
-PLAIN = len(sys.argv) > 1 and sys.argv[1] == '--plain'
+PLAIN = len(sys.argv) > 1 and sys.argv[1] in ('--plain', '--neutral')
+NEUTRAL = len(sys.argv) > 1 and sys.argv[1] == '--neutral'
 if PLAIN:
     del sys.argv[1]
 out, sa, sb = sys.argv[1], sys.argv[2], sys.argv[3]
@@ -74,6 +75,27 @@ The two properties:
 """
 
 
+NEUTRAL_HEAD = """You are helping to test a verification framework for the Python library nexB/debian-inspector (pure Python: Debian deb822 control/copyright parsers, Debian version comparison, dependency relationship expressions). You have your own scratch git worktree of the library at {wt} (source under {wt}/src/debian_inspector, tests under {wt}/tests). Work ONLY inside {wt} and write your results ONLY under {out}/. Do NOT read or touch /repo, /verif or any other directory; do not look for other verification material on this machine. There is no network.
+
+Your task: for EACH of the two properties below, produce TWO behaviour-PRESERVING rewrites ("neutral changes", directories {out}/<ID>_{sa}/ and {out}/<ID>_{sb}/) of code the property depends on. The point is to see that a checker stays SILENT on harmless rewrites, so an accidental behaviour change would spoil the experiment. Each rewrite is a genuine refactoring of at least ten changed lines, and the two of one property differ in kind. Kinds to choose from: restructure a loop or a state machine; replace a regular expression by an equivalent one or by explicit code (or the reverse); inline or extract helpers; replace a table by a function or a function by a table; change the internal data structure (list / deque / dict / generator) without changing what callers see; early returns versus nested conditions; comprehension versus loop; modern syntax (f-strings, walrus, match statements, dataclass-style helpers); rename internals; reorder independent statements; split a long function in two.
+After the rewrite the property STILL holds for every input, and the observable results of every public function and method of the touched modules are unchanged for EVERY input and every sequence of calls - not only for the tested ones: the same return values (same types, same order of dictionary keys), the same exception classes for invalid input, no new warnings or log-level dependent behaviour, no new state kept between calls (no caches of mutable results, no class-level mutable attributes, no mutable default arguments), generators stay generators (and lists stay lists), nothing read from the environment, no size thresholds, objects stay equal / hashable / picklable as before. Think hard about corner cases: empty input, non-ASCII and unusual white space, very long input (hundreds of thousands of lines or characters - no recursion that grows with the input), CR / CRLF line ends, values None versus empty string.
+
+How to run the existing tests in your worktree (they must all still pass WITH your change applied; 138 passed, 6 xfailed is the baseline):
+  cd {wt} && PYTHONPATH={wt}/src /venv/bin/python -m pytest -q -p no:cacheprovider
+(The PYTHONPATH setting is essential: without it Python imports another copy of the library.) Note: one test rewrites a file under tests/data on every run; ignore that file in your diff (git checkout it).
+
+For each change create its directory containing:
+  - patch.diff : output of `git -C {wt} diff -- src` for this change only (relative to the clean worktree; it must apply with `git apply` to a clean checkout of the same commit);
+  - equiv.py   : a stand-alone program that exercises the rewritten code on at least a few thousand varied inputs (typical, odd, empty, non-ASCII, large) and prints ONE line: the sha256 of the repr of all results, exceptions included as their type name; it must use a fixed random seed, finish within five minutes, not depend on files outside its own directory, and print the same digest with and without the patch (run as `PYTHONPATH=<checkout>/src /venv/bin/python equiv.py`);
+  - notes.md   : first line `# <ID>_<n> - <one-line description>`; then 5-15 lines: what was rewritten, of which kind, why it cannot change behaviour, and both digests.
+Between changes restore the worktree with `git -C {wt} checkout -- .` so that each patch is independent. For each change: (1) apply on a clean worktree, (2) the suite passes, (3) the digest of equiv.py equals the digest on the clean worktree. Leave the worktree clean at the end. If you write helper scripts, give them names that start with your worktree name, and delete them at the end.
+
+When you are done reply with a short list: for every change its directory, a one-line description, its kind, and the confirmation that the verification steps were carried out.
+
+The two properties:
+"""
+
+
 def prop_text(p):
     a = p['anchors']
     s = '\n### Property %s - %s\n\nStatement: %s\n\nQuantified over: %s\n\nWhy the existing tests cannot settle it: %s\n\n' % (
@@ -98,5 +120,5 @@ for i in range(10):
     wt = '/tmp/mw%d' % (i + 1)
     a, b = by[order[2 * i]], by[order[2 * i + 1]]
     with open(os.path.join(out, 'prompt_%d.txt' % (i + 1)), 'w') as f:
-        f.write((PLAIN_HEAD if PLAIN else HEAD).format(wt=wt, out=out, sa=sa, sb=sb) + prop_text(a) + prop_text(b))
+        f.write((NEUTRAL_HEAD if NEUTRAL else PLAIN_HEAD if PLAIN else HEAD).format(wt=wt, out=out, sa=sa, sb=sb) + prop_text(a) + prop_text(b))
 print('wrote 10 prompts to', out)
